@@ -128,6 +128,7 @@ prop("C20", "proof", "JSON round trip generic over the regenerated schema (union
 cfg = {"size_classes": SIZE_CLASSES, "trusted_base": TRUSTED, "properties": {}}
 for pid, p in P.items():
     cfg["properties"][pid] = {"level": p["level"], "suites": p["suites"], "obligations": p["obligations"],
+                              "race_suite": "p-reset" if pid == "C13" else None,
                               "rule": p["rule"], "assumptions": p["assumptions"] or [p["note"]],
                               "explanation": p["text"]}
 json.dump(cfg, open(os.path.join(V, "checkcfg.json"), "w"), indent=1)
